@@ -93,10 +93,16 @@ F2y == [Base("F2y", <<"Cu","O">>, <<0,1>>, <<<<3,3,1>>,<<3,4,1>>>>, <<0,0>>, FAL
                  !.bond = [ix |-> <<<<1,0>>>>, ty |-> <<0>>, co |-> <<>>,
                            xf |-> <<<<"1_455","A">>>>, xl |-> <<"_sym","_order">>]]
 
+\* exactly the labels of F3x (other column order, no new label) with longer values than any F3x holds
+F2z == [Base("F2z", <<"Cu","O">>, <<0,1>>, <<<<4,3,1>>,<<4,4,1>>>>, <<0,0>>, FALSE)
+          EXCEPT !.xal = <<"_site","_occ">>, !.xa = <<<<"site_long_1","0.12345">>,<<"site_long_2","0.98765">>>>,
+                 !.bond = [ix |-> <<<<0,1>>>>, ty |-> <<0>>, co |-> <<>>,
+                           xf |-> <<<<"1_455_long","Aromatic">>>>, xl |-> <<"_sym","_order">>]]
+
 Empty == Base("E", <<>>, <<>>, <<>>, <<>>, FALSE)
 
 Frag(f) == CASE f = "F1p" -> F1p [] f = "F2p" -> F2p [] f = "F2b" -> F2b [] f = "F3p" -> F3p
-             [] f = "F4p" -> F4p [] f = "F3r" -> F3r [] f = "F3e" -> F3e [] f = "F3q" -> F3q [] f = "F3a" -> F3a [] f = "F4b" -> F4b [] f = "F3x" -> F3x [] f = "F2y" -> F2y [] f = "E" -> Empty
+             [] f = "F4p" -> F4p [] f = "F3r" -> F3r [] f = "F3e" -> F3e [] f = "F3q" -> F3q [] f = "F3a" -> F3a [] f = "F4b" -> F4b [] f = "F3x" -> F3x [] f = "F2y" -> F2y [] f = "F2z" -> F2z [] f = "E" -> Empty
 
 \* flavour: "p" = carries coefficient tables, "b" = bare, "n" = neutral (no atoms)
 Flavour(f) == CASE f \in {"F1p","F2p","F3p","F4p","F3r","F3e","F3q","F3a"} -> "p" [] f = "E" -> "n" [] OTHER -> "b"
